@@ -507,7 +507,7 @@ func (r *C15Run) readback(op *Op) *Violation {
 	kind := op.S // entities | changes | latest
 	var got []string
 	token := ""
-	for page := 0; page < 200; page++ {
+	for page := 0; page < 1500; page++ {
 		path := "/datasets/src/entities"
 		q := []string{}
 		if kind != "entities" {
